@@ -189,6 +189,27 @@ def install(ctx):
         ip.path.counter += 1
         return StrTok(z3.IntVal(-ip.path.counter))
 
+    # ---------------------------------------------------------- tonic Request / Response
+    @M.reg('Request::get_ref', 'Response::get_ref')
+    def req_get_ref(ip, pc, args, dt):
+        return Ref(args[0].loc.extend(('f', 0)))
+
+    @M.reg('Request::get_mut', 'Response::get_mut')
+    def req_get_mut(ip, pc, args, dt):
+        return Ref(args[0].loc.extend(('f', 0)), True)
+
+    @M.reg('Request::into_inner', 'Response::into_inner')
+    def req_into_inner(ip, pc, args, dt):
+        return args[0].fields[0]
+
+    @M.reg('Request::new', 'Response::new')
+    def req_new(ip, pc, args, dt):
+        return Agg(pc['segs'][-1], [args[0]])
+
+    @M.reg('ActivitySpan::start')
+    def span_start(ip, pc, args, dt):
+        return Opaque('ActivitySpan')
+
     # ---------------------------------------------------------- tonic Status
     for code in ('invalid_argument', 'not_found', 'already_exists', 'failed_precondition', 'internal',
                  'cancelled', 'unimplemented', 'unknown', 'aborted', 'unavailable'):
